@@ -169,6 +169,36 @@ def build_and_audit():
         return out
 
 
+NS_MODULE = {"C04c": "C04Complete", "C03c": "C03Complete", "C13c": "C13Complete", "ILPP": "ILP"}
+
+
+def leanchecker(theorems, lean_key):
+    """thorough tier: re-check the compiled Props modules of these theorems with Lean's independent
+    checker (`leanchecker` replays every declaration of the .olean files through the kernel)."""
+    mods = []
+    for t in theorems:
+        parts = t.split(".")
+        if len(parts) >= 3 and parts[0] == "PrefVerif":
+            m = "PrefVerif.Props." + NS_MODULE.get(parts[1], parts[1])
+            if m not in mods:
+                mods.append(m)
+    out = {}
+    with _lock():
+        for m in mods:
+            cf = os.path.join(CACHE, f"leanchecker-{lean_key}-{m}.json")
+            if os.path.exists(cf):
+                out[m] = json.load(open(cf))
+                continue
+            t0 = time.time()
+            r = subprocess.run(["lake", "env", "leanchecker", m], cwd=LEAN_DIR, capture_output=True, text=True)
+            res = {"ok": r.returncode == 0, "wall_s": round(time.time() - t0, 1),
+                   "output": (r.stdout + r.stderr)[-500:]}
+            os.makedirs(CACHE, exist_ok=True)
+            json.dump(res, open(cf, "w"))
+            out[m] = res
+    return out
+
+
 def run_driver(requests):
     """Send one JSON request per line to the Lean driver, return the parsed replies."""
     if not requests:
@@ -488,6 +518,13 @@ def run_check(P, tier="quick", seed=0, replay=None):
             undischarged.append({"theorem": t, "axioms": ax})
     forbidden = audit["forbidden"]
     proof_ok = audit["build_ok"] and not undischarged and not forbidden
+    lc = None
+    if tier == "thorough" and prop.theorems and not replay:
+        lc = leanchecker(prop.theorems, audit["lean_hash"][:16])
+        for m, r in lc.items():
+            if not r["ok"]:
+                proof_ok = False
+                undischarged.append({"theorem": m + " (leanchecker)", "axioms": r["output"][-200:]})
 
     if replay:
         with open(replay) as f:
@@ -634,6 +671,7 @@ def run_check(P, tier="quick", seed=0, replay=None):
             "source_fingerprint": fp_now,
             "failing_input_search_ran": searched,
             "lean_sources_hash": audit["lean_hash"][:16],
+            "leanchecker": lc,
             "explanation": prop.__doc__ or "",
         },
         "assumptions": [prop.level_note] * bool(prop.level_note) + list(prop.assumptions),
